@@ -29,3 +29,23 @@ pub fn next_seed() -> u64 {
         z ^ (z >> 31)
     })
 }
+
+std::thread_local! {
+    static WINDOW: Cell<Option<(u32, u32)>> = const { Cell::new(None) };
+}
+
+/// Tuning knob for system-level simulations: multiplexors built on this thread from now on
+/// use this receive window and acknowledgement threshold instead of what their `Options` say
+/// (`None` = leave the options alone). Lets flow control be exercised with small transfers.
+pub fn set_window(window: Option<(u32, u32)>) {
+    WINDOW.with(|w| w.set(window));
+}
+
+/// Apply [`set_window`] to a set of options.
+#[must_use]
+pub fn adjust_options(options: crate::config::Options) -> crate::config::Options {
+    match WINDOW.with(Cell::get) {
+        Some((rwnd, threshold)) => options.rwnd(rwnd).default_rwnd_threshold(threshold),
+        None => options,
+    }
+}
